@@ -146,8 +146,16 @@ theorem updateState_good {s s' : St} {m : UpdMsg} (e : updateState s m = .ok s')
                     -- the state after queueing the new index
                     have hi4 : FinInv { s3 with queue := queueAppend s3.queue s3.h m.ra (r.states.length + 1),
                                                 seqH := addSeqHeights s3.seqH m.sender m.bds } := by
-                      refine ⟨p3.nodup.of_ids rfl, ?_, ?_, ?_⟩
+                      refine ⟨p3.nodup.of_ids rfl, ?_, ?_, ?_, ?_⟩
                       · exact queueAppend_sorted _ _ _ _ (by rw [hq3]; exact hi.sorted)
+                      rotate_left
+                      · intro e he
+                        show e.ra ∈ s3.ras.map (·.id)
+                        rw [s23.ids, setRa_ids]
+                        rcases mem_queueAppend _ _ _ _ _ he with ⟨_, k2, _⟩ | hq
+                        · rw [k2, ← hrid]; exact List.mem_map.2 ⟨r, getRa_mem hg, rfl⟩
+                        · rw [hq3] at hq; exact hi.qra e hq
+                      rotate_right
                       · intro e he
                         show e.ch ≤ s3.h ∧ e.idx ≠ []
                         rcases mem_queueAppend _ _ _ _ _ he with ⟨k1, _, k3, _⟩ | hq
